@@ -1034,6 +1034,8 @@ class sptensor:
             return C
 
         if isinstance(other, ttb.tensor):
+            if not self.shape == other.shape:
+                assert False, "Must be tensors of the same shape"
             BB = sptensor(self.subs, other[self.subs][:, None], self.shape)
             C = self.logical_and(BB)
             return C
